@@ -30,6 +30,15 @@
 //     clause, to the executing function;  cli_logoff: that function reaches a function
 //     containing `log.SetCLILogger(nil)`.
 //
+//   - sel_table : list sel_row — one row per function of pkg/cli that calls
+//     api.PagesForPageSelection (result variable v, a map page -> bool in which negated pages
+//     are present with value false).  s_ranges: v is ranged over;  s_counts_by_value: every such
+//     range is `for K, V := range v { if V { …; C++ } }` (both key and value bound, the body a
+//     single `if` on the value identifier that increments a counter);  s_single_guard: the loop
+//     is followed by `if C != 1 { return … }`;  s_uses_len / s_uses_index: v occurs in len(v) /
+//     v[…].  Any other use of v than passing it on (call argument, return value) or comparing
+//     it makes genc41 fail.
+//
 // Every "-" literal must occur as an operand of ==/!=, as an argument of slices.Contains,
 // as an argument of streamInOutForOperation, or as the right-hand side of an assignment;
 // log.SetCLILogger must only be called with nil; anything else makes genc41 FAIL (exit 1),
@@ -727,6 +736,163 @@ func analyseHandler(fd *ast.FuncDecl, param, tname string, cliFiles []*ast.File,
 	return rows
 }
 
+// ---- page-selection consumers
+
+type selRow struct {
+	Name          string `json:"name"`
+	Ranges        bool   `json:"ranges"`
+	CountsByValue bool   `json:"counts_by_value"`
+	SingleGuard   bool   `json:"single_guard"`
+	UsesLen       bool   `json:"uses_len"`
+	UsesIndex     bool   `json:"uses_index"`
+}
+
+func analyseSelections(order []*fn) []selRow {
+	var rows []selRow
+	for _, x := range order {
+		// find `v, err := api.PagesForPageSelection(...)`
+		var vars []string
+		ast.Inspect(x.decl, func(n ast.Node) bool {
+			as, ok := n.(*ast.AssignStmt)
+			if !ok || len(as.Rhs) != 1 {
+				return true
+			}
+			c, ok := as.Rhs[0].(*ast.CallExpr)
+			if !ok || !isSel(c.Fun, "api", "PagesForPageSelection") {
+				return true
+			}
+			id, ok := as.Lhs[0].(*ast.Ident)
+			if !ok || len(as.Lhs) != 2 {
+				die("%s: result of api.PagesForPageSelection not bound to `v, err`", pos(as))
+			}
+			vars = append(vars, id.Name)
+			return true
+		})
+		nCalls := 0
+		ast.Inspect(x.decl, func(n ast.Node) bool {
+			if c, ok := n.(*ast.CallExpr); ok && isSel(c.Fun, "api", "PagesForPageSelection") {
+				nCalls++
+			}
+			return true
+		})
+		if nCalls != len(vars) {
+			die("%s: a call of api.PagesForPageSelection whose result is not assigned", x.Name)
+		}
+		if len(vars) == 0 {
+			continue
+		}
+		if len(vars) > 1 {
+			die("%s: several page selections in one function", x.Name)
+		}
+		v := vars[0]
+		row := selRow{Name: x.Name, CountsByValue: true, SingleGuard: true}
+		var stack []ast.Node
+		ast.Inspect(x.decl, func(n ast.Node) bool {
+			if n == nil {
+				stack = stack[:len(stack)-1]
+				return true
+			}
+			stack = append(stack, n)
+			id, ok := n.(*ast.Ident)
+			if !ok || id.Name != v || len(stack) < 2 {
+				return true
+			}
+			switch p := stack[len(stack)-2].(type) {
+			case *ast.AssignStmt:
+				// the defining assignment
+			case *ast.RangeStmt:
+				if p.X != ast.Expr(id) {
+					die("%s: selection variable used as range key/value", pos(id))
+				}
+				row.Ranges = true
+				counter := rangeCountsByValue(p)
+				if counter == "" {
+					row.CountsByValue = false
+					row.SingleGuard = false
+					return true
+				}
+				// the statement after the loop: if C != 1 { return … }
+				guard := false
+				if len(stack) >= 3 {
+					list := stmtList(stack[len(stack)-3])
+					for i, st := range list {
+						if st == ast.Stmt(p) && i+1 < len(list) {
+							if is, ok := list[i+1].(*ast.IfStmt); ok {
+								if be, ok := is.Cond.(*ast.BinaryExpr); ok && be.Op == token.NEQ {
+									if ci, ok := be.X.(*ast.Ident); ok && ci.Name == counter {
+										if bl, ok := be.Y.(*ast.BasicLit); ok && bl.Value == "1" && len(is.Body.List) == 1 {
+											if _, ok := is.Body.List[0].(*ast.ReturnStmt); ok {
+												guard = true
+											}
+										}
+									}
+								}
+							}
+						}
+					}
+				}
+				if !guard {
+					row.SingleGuard = false
+				}
+			case *ast.CallExpr:
+				if fid, ok := p.Fun.(*ast.Ident); ok && fid.Name == "len" {
+					row.UsesLen = true
+				}
+				// otherwise: passed on as an argument
+			case *ast.IndexExpr:
+				if p.X == ast.Expr(id) {
+					row.UsesIndex = true
+				}
+			case *ast.ReturnStmt, *ast.BinaryExpr:
+			default:
+				die("%s: use of the page selection %s that is not understood (%T)", pos(id), v, p)
+			}
+			return true
+		})
+		if !row.Ranges {
+			row.CountsByValue = false
+			row.SingleGuard = false
+		}
+		rows = append(rows, row)
+	}
+	sort.Slice(rows, func(i, j int) bool { return rows[i].Name < rows[j].Name })
+	return rows
+}
+
+// rangeCountsByValue: `for K, V := range v { if V { …; C++ } }` -> C, else "".
+func rangeCountsByValue(r *ast.RangeStmt) string {
+	if r.Key == nil || r.Value == nil {
+		return ""
+	}
+	val, ok := r.Value.(*ast.Ident)
+	if !ok || val.Name == "_" {
+		return ""
+	}
+	if k, ok := r.Key.(*ast.Ident); !ok || k.Name == "_" {
+		return ""
+	}
+	if len(r.Body.List) != 1 {
+		return ""
+	}
+	is, ok := r.Body.List[0].(*ast.IfStmt)
+	if !ok || is.Else != nil || is.Init != nil {
+		return ""
+	}
+	c, ok := is.Cond.(*ast.Ident)
+	if !ok || c.Name != val.Name {
+		return ""
+	}
+	counter := ""
+	for _, st := range is.Body.List {
+		if inc, ok := st.(*ast.IncDecStmt); ok && inc.Tok == token.INC {
+			if id, ok := inc.X.(*ast.Ident); ok {
+				counter = id.Name
+			}
+		}
+	}
+	return counter
+}
+
 func b(v bool) string {
 	if v {
 		return "true"
@@ -786,6 +952,18 @@ func main() {
 		}
 		fmt.Fprintf(&sb, "  mkJson %q %q %s %q %q %q %s%s\n", r.Handler, r.Opts, b(r.HandlerLogoff), r.Ctor, r.Mode, r.Exec, b(r.CliLogoff), sep)
 	}
+	sb.WriteString("].\n\n")
+	srows := analyseSelections(order)
+	sb.WriteString("Record sel_row := mkSel { s_name : string; s_ranges : bool; s_counts_by_value : bool;\n")
+	sb.WriteString("  s_single_guard : bool; s_uses_len : bool; s_uses_index : bool }.\n\n")
+	sb.WriteString("Definition sel_table : list sel_row := [\n")
+	for i, r := range srows {
+		sep := ";"
+		if i == len(srows)-1 {
+			sep = ""
+		}
+		fmt.Fprintf(&sb, "  mkSel %q %s %s %s %s %s%s\n", r.Name, b(r.Ranges), b(r.CountsByValue), b(r.SingleGuard), b(r.UsesLen), b(r.UsesIndex), sep)
+	}
 	sb.WriteString("].\n")
 	if err := os.MkdirAll(filepath.Dir(*out), 0o755); err != nil {
 		die("%v", err)
@@ -797,7 +975,7 @@ func main() {
 		if err := os.MkdirAll(filepath.Dir(*js), 0o755); err != nil {
 			die("%v", err)
 		}
-		bb, _ := json.MarshalIndent(map[string]any{"cli": rows, "json": jrows}, "", " ")
+		bb, _ := json.MarshalIndent(map[string]any{"cli": rows, "json": jrows, "sel": srows}, "", " ")
 		if err := os.WriteFile(*js, bb, 0o644); err != nil {
 			die("%v", err)
 		}
